@@ -47,7 +47,7 @@ def job(cfg):
     in_shape = (Fn, 1, 2) if image else (Fn,)
 
     def fn():
-        mask = stubs.named_tensor("mask", (Fn,))
+        mask = stubs.named_tensor("mask", (Fn,), lo=-2, hi=2)  # any real values in (-2, 2): 0, fractions and negatives included
         net_factory = TK.ufnet_factory("cond", hidden_features=4)
         kw = {}
         if uncond:
@@ -79,10 +79,16 @@ def job(cfg):
     sig = {"cls": cls, "image": image, "direction": direction, "uncond": uncond}
     per = int(np.prod(in_shape[1:])) if image else 1
 
-    def fail(relation, pattern, detail):
-        rep = replay(cls, Fn, image, direction, uncond, pattern, relation)
+    def fail(relation, pattern, detail, path=None):
+        mask_values = None
+        if path is not None:
+            st, model, _, _ = C.check_sat(R, solver, path.condition(), 20, extra=[tm.var("mask_%d" % i) for i in range(Fn)])
+            if st == "sat" and model:
+                mv = {k.args[0]: float(v) for k, v in model.items() if k.op == "var" and k.args[0].startswith("mask_")}
+                mask_values = [mv.get("mask_%d" % i, -1.0 if pattern[i] else 1.0) for i in range(Fn)]
+        rep = replay(cls, Fn, image, direction, uncond, pattern, relation, mask_values=mask_values)
         payload = {"property": PROP, "kernel": jr["kernel"], "relation": relation, "signature": sig, "pattern": pattern, "detail": detail, "replay_result": rep,
-                   "replay_call": {"fn": "harness.C07:replay", "args": {"cls": cls, "Fn": Fn, "image": image, "direction": direction, "uncond": uncond, "pattern": pattern, "relation": relation}}}
+                   "replay_call": {"fn": "harness.C07:replay", "args": {"cls": cls, "Fn": Fn, "image": image, "direction": direction, "uncond": uncond, "pattern": pattern, "relation": relation, "mask_values": mask_values}}}
         if rep.get("reproduced"):
             fn_ = "".join(ch if ch.isalnum() else "_" for ch in "%s_%s" % (name, relation))[:110]
             jr["violations"].append({"kernel": jr["kernel"], "relation": relation, "signature": sig, "replay": C.write_replay(PROP, fn_, payload), "detail": rep})
@@ -115,14 +121,14 @@ def job(cfg):
                         ok_ident = False
         jr["outcomes"].append({"name": pname + "/identity-features-are-the-input-terms", "kind": "goal", "status": "unsat" if ok_ident else "sat", "s": 0.0, "expect": "unsat", "rung": "syntactic"})
         if not ok_ident:
-            fail("identity-untouched", pattern, "an identity output term differs from its input term")
+            fail("identity-untouched", pattern, "an identity output term differs from its input term", p)
         if uncond and ref is not None:
             ro = ref.a[0].reshape(sum(pattern), -1)
             idx = [f for f in range(Fn) if pattern[f]]
             same = all(xo[f, k].t is ro[j, k].t for j, f in enumerate(idx) for k in range(ro.shape[1]))
             jr["outcomes"].append({"name": pname + "/identity-part==unconditional-transform-alone", "kind": "goal", "status": "unsat" if same else "sat", "s": 0.0, "expect": "unsat", "rung": "syntactic"})
             if not same:
-                fail("unconditional-alone", pattern, "identity part is not the unconditional transform applied alone")
+                fail("unconditional-alone", pattern, "identity part is not the unconditional transform applied alone", p)
         # what the conditioner saw
         calls = m.transform_net.calls
         ident_terms = set()
@@ -140,7 +146,7 @@ def job(cfg):
         ok_cond = ok_cond and seen_terms == ident_terms
         jr["outcomes"].append({"name": pname + "/conditioner-sees-exactly-identity-features(+context)", "kind": "goal", "status": "unsat" if ok_cond else "sat", "s": 0.0, "expect": "unsat", "rung": "syntactic"})
         if not ok_cond:
-            fail("conditioner-inputs", pattern, "conditioner saw %d terms, identity set has %d" % (len(seen_terms), len(ident_terms)))
+            fail("conditioner-inputs", pattern, "conditioner saw %d terms, identity set has %d" % (len(seen_terms), len(ident_terms)), p)
         # Jacobian sparsity / monotonicity through dual numbers
         cond = p.condition()
         offdiag, diag = [], []
@@ -163,12 +169,12 @@ def job(cfg):
         bad = [t for t in offdiag if not (t.op == "const" and t.args[0] == 0)]
         jr["outcomes"].append({"name": pname + "/no-dependence-on-other-transformed-features", "kind": "goal", "status": "unsat" if not bad else "sat", "s": 0.0, "expect": "unsat", "rung": "syntactic"})
         if bad:
-            fail("triangular", pattern, "a transformed output has a non-zero derivative w.r.t. another transformed input")
+            fail("triangular", pattern, "a transformed output has a non-zero derivative w.r.t. another transformed input", p)
         if diag and not cls.startswith("Piecewise"):  # positivity of the spline derivative is C09's claim
             o = C.prove(R, solver, pname + "/d out_t/d x_t > 0", tm.and_(*[tm.gt(t, tm.ZERO) for t in diag]), [cond], timeout)
             jr["outcomes"].append(o.as_dict())
             if o.status == "sat":
-                fail("monotone", pattern, "own derivative not positive")
+                fail("monotone", pattern, "own derivative not positive", p)
             elif o.status != "unsat":
                 jr["inconclusive"].append({"query": o.name, "status": o.status})
         w = C.witness(R, solver, pname + "/reach", cond, timeout)
@@ -186,12 +192,13 @@ def job(cfg):
     return jr
 
 
-def replay(cls, Fn, image, direction, uncond, pattern, relation):
+def replay(cls, Fn, image, direction, uncond, pattern, relation, mask_values=None):
     """real tensors, a small real conditioner: identity features bit-for-bit, Jacobian sparsity by autograd."""
     res = {"reproduced": False}
     try:
         torch.manual_seed(3)
-        mask = [-1.0 if b else 1.0 for b in pattern]
+        mask = list(mask_values) if mask_values else [-1.0 if b else 1.0 for b in pattern]
+        pattern = [mv <= 0 for mv in mask]  # the documented meaning of the mask: entries <= 0 are identity features
 
         class Net(torch.nn.Module):
             def __init__(self, i, o):
